@@ -323,7 +323,10 @@ def _c08(ctx):
                'object state (no mutable member, pointee or static reachable)'
     for f in p1.findings:
         f.rule = 'P1'
-    return [p1, poly.rule_P2(ctx), poly.rule_P3(ctx), poly.rule_P4(ctx), poly.rule_P5(ctx)]
+    from .rules import licrules
+    m7, nf7, nc7 = licrules.rule_M7(ctx)
+    m7.floor('mask-gated placeholders in the solvers the polygon calls', nc7, 3)
+    return [p1, poly.rule_P2(ctx), poly.rule_P3(ctx), poly.rule_P4(ctx), poly.rule_P5(ctx), m7]
 
 
 def _c17(ctx):
